@@ -106,6 +106,7 @@ THEOREMS = [
     "Cotengra.C16.nstep_inv",
     "Cotengra.C16.stepTop_subopts_other",
     "Cotengra.C16.register_first_counterexample",
+    "Cotengra.C16.nested_no_spurious_errors",
     "Cotengra.C16.nested_path_isolation",
     "Cotengra.C16.path_collision_counterexample",
     # overlapping pool-parallel sub-searches (Props/C16Pool.lean)
